@@ -24,7 +24,8 @@ Definition S0 := mkStrat [] [] [] [].
 
 Inductive mode := Manual | Sync | Async.
 Inductive perturb := PNone | PDelete (i : N) | PDup (i : N) | PSwap (i : N) | PReplay (i : N)
-  | PWindow (i n : N).   (* the [n] ticks from position [i] are replayed after the stream *)
+  | PWindow (i n : N)    (* the [n] ticks from position [i] are replayed after the stream *)
+  | PTriple (i : N).     (* tick [i] three times in a row *)
 
 (** observed audit tick: sequence, Process (true) / FeedEnded, carried event == fed event,
     is_terminal(), errors non-empty, outputs *)
@@ -181,6 +182,9 @@ Definition perturb_list {A} (p : perturb) (l : list A) : list A :=
                end
   | PReplay i => match nth_error l (N.to_nat i) with Some t => l ++ [t] | None => l end
   | PWindow i n => l ++ firstn (N.to_nat n) (skipn (N.to_nat i) l)
+  | PTriple i =>
+      let l1 := firstn (S (N.to_nat i)) l ++ skipn (N.to_nat i) l in
+      firstn (S (N.to_nat i)) l1 ++ skipn (N.to_nat i) l1
   end.
 Definition is_pnone (p : perturb) : bool := match p with PNone => true | _ => false end.
 
